@@ -23,6 +23,7 @@ RULE = ('repeat/modes: 12 simulators x {arrays, full} x seeded random/boundary i
 ASSUMPTIONS = ['initial sets are passed as lists (a set argument legitimately iterates in hash order)', 'user callbacks supplied by the harness are themselves deterministic']
 BUDGET = {'quick': 160, 'thorough': 1500}
 CHUNK = {'quick': 25, 'thorough': 100}
+CASE_TIMEOUT = 1800
 REQUIRED = ['repeat_pairs_compared', 'tripwire_calls_monitored', 'mode_pairs_compared', 'hash_batches', 'hash_digests_compared']
 CONT = [s for s in simreg.ALL_SIMS if s not in simreg.DISCRETE]
 
@@ -45,12 +46,12 @@ def gen_cases(tier, seed):
         if c.get('R0_form') == 'set':
             c['R0_form'] = 'list'
         out.append(c)
-    nb = 6 if q else 24
+    nb = 6 if q else 32
     for b in range(nb):
         cs = case_seed(seed, PID + 'hash', b)
         r = random.Random(cs)
         batch = []
-        for j in range(40 if q else 120):
+        for j in range(40 if q else 80):
             sim = CONT[j % len(CONT)]
             c = simreg.random_sim_case(r, sim, nmax=16)
             c['graph']['labels'] = 'str'
